@@ -390,11 +390,13 @@ def _tracerays(
             m = _numpy.cos(thetarad) / _numpy.sin(thetarad)
             xray = (layer_depth + m * pt[0] - pt[1]) / m
 
+        reached_receiver_line = False
         if xray > receivers_x:
             m = _numpy.cos(thetarad) / _numpy.sin(thetarad)
 
             xray = receivers_x
             layer_depth = m * xray - m * pt[0] + pt[1]
+            reached_receiver_line = True
 
         ##-----------------------------------
         ## Do ray path calculations
@@ -407,7 +409,8 @@ def _tracerays(
         ##-----------------------------------
         raycoo = _numpy.r_[raycoo, _numpy.array([[xray, layer_depth]])]
 
-        if xray > receivers_x:
+        # xray was clipped to receivers_x above, so compare the flag, not the coordinate
+        if reached_receiver_line:
             break
 
         if (raycoo[-2, 1] > 0.0) and (
